@@ -10,6 +10,9 @@ import (
 
 const band = 2.001 // "more than 2 units": float distance guard on the safe side
 
+// nearTol is the tolerance of the input-class predicate kit.NearDegenerate.
+const nearTol = 1.5
+
 // runBoolean executes one boolean operation through the chosen entry point while the
 // event recorder is on. entry: 0 BooleanOpPaths64, 1 the named wrapper, 2 an engine
 // object with the paths added one path per AddPaths call.
@@ -71,7 +74,7 @@ func kfKeyForEvent(kind string) string {
 }
 
 type regionStats struct {
-	judged, inside, outside, attributed int
+	judged, inside, outside, attributed, attributedClass int
 }
 
 // judgeRegion compares the solution region with the exact boolean combination at every
@@ -80,6 +83,8 @@ type regionStats struct {
 func judgeRegion(prop string, subj, clip Paths, ct c2.ClipType, fr c2.FillRule, sol Paths, evs []c2.VerifEvent, probes []P) (*Violation, regionStats) {
 	var rs regionStats
 	inputs := append(append(Paths{}, subj...), clip...)
+	classKnown, inClass, classWhy := false, false, ""
+	_ = classWhy
 	for _, q := range probes {
 		if !kit.FarFrom(q, inputs, true, band) {
 			continue
@@ -99,6 +104,14 @@ func judgeRegion(prop string, subj, clip Paths, ct c2.ClipType, fr c2.FillRule, 
 		}
 		if k := attribute(q, evs); k != "" && kfActive(prop, kfKeyForEvent(k)) {
 			rs.attributed++
+			continue
+		}
+		if !classKnown {
+			classKnown = true
+			inClass, classWhy = kit.NearDegenerate([]Paths{inputs}, true, nearTol)
+		}
+		if inClass && kfActive(prop, "class:near-degenerate") {
+			rs.attributedClass++
 			continue
 		}
 		return violf("region mismatch at %v: want inside=%v (wind subj=%d clip=%d, %s/%s) but solution winding=%d onSolutionEdge=%v; solution=%v events=%s",
